@@ -1,10 +1,22 @@
 """T1: facts regenerated from /repo's current source on every run (extract/facts -> Generated/Facts.lean)."""
 import os
 
-from build import BUILD, LEAN, REPO, build_tools, run
+from build import BUILD, LEAN, REPO, build_tools, lean_lock, run
+
+
+def write_atomic(path, text):
+    tmp = path + ".tmp%d" % os.getpid()
+    with open(tmp, "w") as fh:
+        fh.write(text)
+    os.replace(tmp, path)
 
 
 def regenerate(pid, work):
+    with lean_lock():
+        return _regenerate(pid, work)
+
+
+def _regenerate(pid, work):
     """Regenerates lean/OlricModel/Generated/Facts.lean (written only if different) and reports the
     per-property fact obligations.  Returns dict(obligations, discharged, problems, facts)."""
     res = {"obligations": 0, "discharged": 0, "problems": [], "facts": {}}
@@ -25,7 +37,7 @@ def regenerate(pid, work):
             res["facts"][k] = v
     new = open(tmp).read()
     if not os.path.exists(out) or open(out).read() != new:
-        open(out, "w").write(new)
+        write_atomic(out, new)
     # parser translation
     ptool = os.path.join(BUILD, "parsers")
     if os.path.exists(ptool):
@@ -40,5 +52,5 @@ def regenerate(pid, work):
                 dst = os.path.join(LEAN, "OlricModel", "Generated", name)
                 new = open(src).read()
                 if not os.path.exists(dst) or open(dst).read() != new:
-                    open(dst, "w").write(new)
+                    write_atomic(dst, new)
     return res
